@@ -3,7 +3,6 @@ package props
 import (
 	"fmt"
 	"go/ast"
-	"regexp"
 	"sort"
 	"strings"
 
@@ -57,57 +56,55 @@ func C04(p *core.Program, r *core.Report) {
 	r.Explanation = "V1 (every source->output enumerator is gated): all decision paths of the converter's element visitor are enumerated with builder calls as events; any path that hands anything to the builder or lets the walk descend requires IsProbablyVisible(node) to have been decided true first; text reaches the builder only as real text nodes of the walked tree (never via TextContent); the dispatcher drops comments/doctypes; the visitor of GetOutputNodes (tables, captions, embeds) admits a descendant only if it is not script/style and probably visible (decision-list conformance). V2: wholesale copies in output code are reviewed. V3: IsProbablyVisible's decision list is the documented one (display none, hidden attribute, visibility hidden/collapse, aria-hidden=true), GetDisplayStyle lets an inline display override the tag default and maps script/style/meta/link to none, and the two regular expressions are the reviewed patterns. V4: the converter's switch sends every listed non-reading tag to a clause that returns false without StartNode. V5: InnerText does not descend into elements that are not probably visible and every text view is rendered through it (or is empty)."
 	r.NotCovered = "style sheets and computed CSS (the port only sees inline style and attributes: NEED-COMPUTE-CSS), what the two regular expressions match beyond their reviewed text, text inside embed placeholders (exempt by the property)."
 
-	// ---- V1 main walk
-	ve := mustFunc(p, r, "V1", "(*"+converterPkg+".DomConverter).visitElementNodeHandler")
-	if ve != nil {
-		builderCall := regexp.MustCompile(`^iface\.(AddTextNode|AddLineBreak|AddDataTable|AddTag|AddEmbed|StartNode|SkipNode)\(`)
-		opts := core.DecisionOpts{
-			Outcome: func(in ssa.Instruction, c *core.Canon) (string, bool) {
-				if ret, ok := in.(*ssa.Return); ok {
-					return "return " + c.Of(ret.Results[0]), true
+	// ---- V1 main walk: the visit callback of Convert (helpers expanded), whatever it is called
+	if vm := visitor(p, r, "V1"); vm != nil {
+		ungated, notFirst, nElem := 0, 0, 0
+		badText := map[string]bool{}
+		badOther := 0
+		var wit []string
+		for _, pa := range vm.paths {
+			evs := builderCalls(pa)
+			res := pathResult(pa)
+			isText := litOf(pa, `$1.Type == html.TextNode`) == 1
+			isElem := litOf(pa, `$1.Type == html.ElementNode`) == 1
+			switch {
+			case isText:
+				// a text node of a walked element: handed to the builder as it is, never descended
+				if len(evs) != 1 || evs[0] != "AddTextNode($1)" || res != "return false" {
+					badOther++
+					wit = append(wit, pa.String())
 				}
-				return "", false
-			},
-			Event: func(in ssa.Instruction, c *core.Canon) (string, bool) {
-				if call, ok := in.(*ssa.Call); ok {
-					s := c.Of(call)
-					if builderCall.MatchString(s) {
-						return s, true
+			case !isElem:
+				// comments, doctypes, anything else: dropped
+				if len(evs) != 0 || res != "return false" {
+					badOther++
+					wit = append(wit, pa.String())
+				}
+			default:
+				nElem++
+				admits := res != "return false" || len(evs) > 0
+				vis, first := 0, ""
+				for _, l := range pa.Lits {
+					if strings.HasPrefix(l.Atom, "$1.Type == ") {
+						continue
+					}
+					if first == "" {
+						first = l.Atom
+					}
+					if l.Atom == "domutil.IsProbablyVisible($1)" {
+						vis = tern(l.Val)
 					}
 				}
-				return "", false
-			},
-		}
-		paths, _, err := core.EnumerateDecisions(p, ve, opts)
-		if err != nil {
-			r.Undecided("V1", "visitElementNodeHandler", err.Error())
-		}
-		ungated, notFirst := 0, 0
-		badText := map[string]bool{}
-		var wit []string
-		for _, pa := range paths {
-			admits := pa.Outcome != "return false"
-			vis, first := 0, ""
-			for i, l := range pa.Lits {
-				if i == 0 {
-					first = l.Atom
+				if admits && vis != 1 {
+					ungated++
+					wit = append(wit, pa.String())
 				}
-				if l.Atom == "domutil.IsProbablyVisible($1)" {
-					vis = tern(l.Val)
+				if admits && first != "domutil.IsProbablyVisible($1)" {
+					notFirst++
 				}
-			}
-			if admits && vis != 1 {
-				ungated++
-				wit = append(wit, pa.String())
-			}
-			if admits && first != "domutil.IsProbablyVisible($1)" {
-				notFirst++
-			}
-			for _, ev := range strings.Split(strings.SplitN(pa.Outcome, " => ", 2)[0], "; ") {
-				if strings.HasPrefix(ev, "iface.AddTextNode(") {
-					arg := strings.TrimSuffix(strings.TrimPrefix(ev, "iface.AddTextNode($0.builder,"), ")")
-					if arg != "elem(dom.ChildNodes($1))" {
-						badText[arg] = true
+				for _, ev := range evs {
+					if strings.HasPrefix(ev, "AddTextNode(") && ev != "AddTextNode(dom.ChildNodes($1)[0])" {
+						badText[ev] = true
 					}
 				}
 			}
@@ -115,49 +112,18 @@ func C04(p *core.Program, r *core.Report) {
 		if len(wit) > 3 {
 			wit = wit[:3]
 		}
-		r.Add("V1", "element visitor: nothing is admitted unless the element is probably visible", p.Pos(ve.Pos()), ungated == 0 && len(paths) > 100, fmt.Sprintf("%d of %d decision paths admit content (builder call or descent) without IsProbablyVisible(node) decided true", ungated, len(paths)), wit...)
-		r.Add("V1", "element visitor: visibility is decided before anything else", p.Pos(ve.Pos()), notFirst == 0, fmt.Sprintf("%d admitting paths start with another test", notFirst))
+		r.Add("V1", "visit callback: text nodes are handed over as they are, other non-elements are dropped", vm.pos, badOther == 0, fmt.Sprintf("%d deviating paths", badOther), wit...)
+		r.Add("V1", "element visitor: nothing is admitted unless the element is probably visible", vm.pos, ungated == 0 && nElem > 100, fmt.Sprintf("%d of %d element paths admit content (builder call or descent) without IsProbablyVisible(node) decided true", ungated, nElem), wit...)
+		r.Add("V1", "element visitor: visibility is decided before anything else", vm.pos, notFirst == 0, fmt.Sprintf("%d admitting paths start with another test", notFirst))
 		var bt []string
 		for k := range badText {
 			bt = append(bt, k)
 		}
 		sort.Strings(bt)
-		r.Add("V1", "element visitor: text enters the builder only as text nodes of the walked tree", p.Pos(ve.Pos()), len(bt) == 0, fmt.Sprintf("other text sources: %v (text computed from a subtree bypasses the per-element gate)", bt))
-	}
-	if vn := mustFunc(p, r, "V1", "(*"+converterPkg+".DomConverter).visitNodeHandler"); vn != nil {
-		paths, atoms, err := core.EnumerateDecisions(p, vn, core.DecisionOpts{
-			Outcome: func(in ssa.Instruction, c *core.Canon) (string, bool) {
-				if ret, ok := in.(*ssa.Return); ok {
-					return "return " + c.Of(ret.Results[0]), true
-				}
-				return "", false
-			},
-			Event: callEvent(regexp.MustCompile(`^iface\.`)),
-		})
-		if err != nil {
-			r.Undecided("V1", "visitNodeHandler", err.Error())
-		}
-		spec := core.DecisionSpec{
-			Atoms: map[string]string{"text": q(`$1.Type == html.TextNode`), "element": q(`$1.Type == html.ElementNode`)},
-			Rules: []core.SpecRule{
-				{Name: "text node of a walked element", Guard: core.A("text"), Outcome: "iface.AddTextNode($0.builder,$1) => return false"},
-				{Name: "element: decided by the element visitor", Guard: core.A("element"), Outcome: "return converter.DomConverter.visitElementNodeHandler($0,$1)"},
-				{Name: "comments, doctypes, anything else: dropped", Guard: core.True(), Outcome: "return false"},
-			},
-		}
-		core.CheckDecisionList(r, "V1", "visitNodeHandler", paths, atoms, spec)
-	}
-	// the walk of Convert uses exactly these handlers
-	if conv := mustFunc(p, r, "V1", "(*"+converterPkg+".DomConverter).Convert"); conv != nil {
-		c := core.NewCanon(p)
-		ok := false
-		for _, call := range core.Calls(conv, func(ci ssa.CallInstruction) bool { return core.IsCallTo(ci, domutilPkg+".WalkNodes") }) {
-			ok = strings.Contains(c.Of(call.Common().Args[1]), "visitNodeHandler") && strings.Contains(c.Of(call.Common().Args[2]), "exitNodeHandler")
-		}
-		r.Add("V1", "Convert walks with the gated visitor", p.Pos(conv.Pos()), ok, "")
+		r.Add("V1", "element visitor: text enters the builder only as text nodes of the walked tree", vm.pos, len(bt) == 0, fmt.Sprintf("other text sources: %v (text computed from a subtree bypasses the per-element gate)", bt))
 	}
 	// WalkNodes: children of a node are visited only if the visitor returned true
-	if wn := mustFunc(p, r, "V1", domutilPkg+".WalkNodes"); wn != nil {
+	if wn := mustInl(p, r, "V1", domutilPkg+".WalkNodes"); wn != nil {
 		// remove the "fnVisit returned true" edge: the recursive call must become unreachable
 		paths, _, _ := core.EnumerateDecisions(p, wn, core.DecisionOpts{Outcome: noOutcome, Event: func(in ssa.Instruction, c *core.Canon) (string, bool) {
 			if core.IsCallTo(in, domutilPkg+".WalkNodes") {
@@ -190,7 +156,8 @@ func C04(p *core.Program, r *core.Report) {
 	// V1 continued: the roots handed to the wholesale cloner are themselves known visible. Tables and
 	// embeds are picked by the gated element visitor; a figure's caption is picked by the image
 	// extractor and must be either synthesised from visible text or checked up to the figure.
-	if ex := mustFunc(p, r, "V1", "(*mod/internal/extractor/embed.ImageExtractor).Extract"); ex != nil {
+	visWithin := roles(p).visibleWithin
+	if ex := mustInl(p, r, "V1", "(*mod/internal/extractor/embed.ImageExtractor).Extract"); ex != nil {
 		paths, _, err := core.EnumerateDecisions(p, ex, core.DecisionOpts{ResolvePhis: true,
 			Outcome: func(in ssa.Instruction, c *core.Canon) (string, bool) {
 				if _, ok := in.(*ssa.Return); ok {
@@ -216,12 +183,12 @@ func C04(p *core.Program, r *core.Report) {
 			}
 			nCap++
 			v := strings.SplitN(pa.Outcome[i+8:], " => ", 2)[0]
-			if strings.HasPrefix(v, "embed.ImageExtractor.createFigCaption(") {
-				continue
+			if v == `dom.CreateElement("figcaption")` {
+				continue // synthesised from visible text (V5)
 			}
 			checked := false
 			for _, l := range pa.Lits {
-				if strings.HasPrefix(l.Atom, "embed.ImageExtractor.isVisibleWithin(") && strings.Contains(l.Atom, v) && l.Val {
+				if strings.HasPrefix(l.Atom, "@visibleWithin(") && strings.Contains(l.Atom, v) && l.Val {
 					checked = true
 				}
 			}
@@ -235,7 +202,10 @@ func C04(p *core.Program, r *core.Report) {
 		}
 		r.Add("V1", "figure captions taken from the page are checked for visibility up to the figure", p.Pos(ex.Pos()), nCap >= 2 && bad == 0, fmt.Sprintf("%d paths set a caption, %d of them use an unchecked source element", nCap, bad), wit...)
 	}
-	if iv := mustFunc(p, r, "V1", "(*mod/internal/extractor/embed.ImageExtractor).isVisibleWithin"); iv != nil {
+	if visWithin == nil {
+		r.Undecided("V1", "visibility check of page captions", "no (element, root) bool helper with a visibility loop found below ImageExtractor.Extract")
+	} else {
+		iv := p.Inlined(visWithin)
 		hs := loopHeaders(iv)
 		ok := false
 		if len(hs) == 1 {
@@ -253,14 +223,14 @@ func C04(p *core.Program, r *core.Report) {
 				}
 			}
 		}
-		r.Add("V1", "isVisibleWithin rejects an element with a hidden ancestor", p.Pos(iv.Pos()), ok, "")
+		r.Add("V1", "the caption visibility check rejects an element with a hidden ancestor", p.Pos(iv.Pos()), ok, "")
 	}
 
 	// ---- V2
 	checkWholesaleCopies(p, r, "V2")
 
 	// ---- V3
-	if iv := mustFunc(p, r, "V3", domutilPkg+".IsProbablyVisible"); iv != nil {
+	if iv := mustInl(p, r, "V3", domutilPkg+".IsProbablyVisible"); iv != nil {
 		paths, atoms, err := core.EnumerateDecisions(p, iv, core.DecisionOpts{Outcome: func(in ssa.Instruction, c *core.Canon) (string, bool) {
 			if ret, ok := in.(*ssa.Return); ok {
 				return "return " + c.Of(ret.Results[0]), true
@@ -289,28 +259,7 @@ func C04(p *core.Program, r *core.Report) {
 		}
 		core.CheckDecisionList(r, "V3", "IsProbablyVisible", paths, atoms, spec)
 	}
-	if fd, pkg := p.FuncDecl("internal/domutil", "", "GetDisplayStyle"); fd == nil {
-		r.Undecided("V3", "anchor GetDisplayStyle", "not found")
-	} else {
-		none := map[string]bool{}
-		for _, sw := range core.StringSwitches(pkg, fd.Body, nil) {
-			for _, cl := range sw.Clauses {
-				if len(cl.Body) == 1 {
-					if ret, ok := cl.Body[0].(*ast.ReturnStmt); ok && len(ret.Results) == 1 {
-						if s, ok := core.ConstStringOf(pkg, ret.Results[0]); ok && s == "none" {
-							for _, l := range cl.Labels {
-								none[l] = true
-							}
-						}
-					}
-				}
-			}
-		}
-		for _, t := range []string{"script", "style"} {
-			r.Add("V3", "default display of <"+t+"> is none", p.Pos(fd.Pos()), none[t], "")
-		}
-	}
-	if gd := mustFunc(p, r, "V3", domutilPkg+".GetDisplayStyle"); gd != nil {
+	if gd := mustInl(p, r, "V3", domutilPkg+".GetDisplayStyle"); gd != nil {
 		// the inline style decides first
 		paths, _, _ := core.EnumerateDecisions(p, gd, core.DecisionOpts{MaxPaths: 100000, Outcome: func(in ssa.Instruction, c *core.Canon) (string, bool) {
 			if ret, ok := in.(*ssa.Return); ok {
@@ -321,11 +270,24 @@ func C04(p *core.Program, r *core.Report) {
 		ok := false
 		for _, pa := range paths {
 			if len(pa.Lits) == 1 && strings.HasPrefix(pa.Lits[0].Atom, `len(regexp.Regexp.FindStringSubmatch(domutil.rxDisplay,dom.GetAttribute($0,"style"))) <= 1`) && !pa.Lits[0].Val &&
-				pa.Outcome == `return elem(regexp.Regexp.FindStringSubmatch(domutil.rxDisplay,dom.GetAttribute($0,"style")))` {
+				pa.Outcome == `return regexp.Regexp.FindStringSubmatch(domutil.rxDisplay,dom.GetAttribute($0,"style"))[1]` {
 				ok = true
 			}
 		}
 		r.Add("V3", "an inline display value overrides the tag default", p.Pos(gd.Pos()), ok, "first decision of GetDisplayStyle: rxDisplay on the style attribute")
+		for _, t := range []string{"script", "style"} {
+			n, okT := 0, true
+			for _, pa := range consistentWith(paths, "dom.TagName($0)", t) {
+				if len(pa.Lits) > 0 && strings.HasPrefix(pa.Lits[0].Atom, "len(regexp.Regexp.FindStringSubmatch(domutil.rxDisplay,") && !pa.Lits[0].Val {
+					continue // inline display given
+				}
+				n++
+				if pa.Outcome != `return "none"` {
+					okT = false
+				}
+			}
+			r.Add("V3", "default display of <"+t+"> is none", p.Pos(gd.Pos()), okT && n > 0, fmt.Sprintf("%d decision paths for the tag without inline display", n))
+		}
 	}
 	lits := regexpLiterals(p, "internal/domutil")
 	wantRx := map[string]string{
@@ -339,18 +301,25 @@ func C04(p *core.Program, r *core.Report) {
 	// ---- V4
 	if tbl := converterSwitch(p, r, "V4"); tbl != nil {
 		for _, tag := range skipTags {
-			cl := tbl.ByLabel[tag]
-			ok := cl != nil && cl.AlwaysReturnsFalse && !cl.Calls["StartNode"] && !cl.Calls["AddTextNode"] && !cl.Calls["AddEmbed"] && !cl.Calls["AddDataTable"]
-			why := "no clause: the element would be walked"
-			if cl != nil {
-				why = cl.Describe()
-			}
-			r.Add("V4", "converter never walks into <"+tag+">", tbl.Pos, ok, why)
+			cl := tbl.For(tag)
+			ok := cl.Paths > 0 && cl.AlwaysReturnsFalse && !cl.Calls["StartNode"] && !cl.Calls["AddTextNode"] && !cl.Calls["AddDataTable"]
+			r.Add("V4", "converter never walks into <"+tag+">", tbl.Pos, ok, cl.Describe())
 		}
 	}
 
 	// ---- V5
-	if it := mustFunc(p, r, "V5", domutilPkg+".InnerText$1"); it != nil {
+	var innerFinder *ssa.Function
+	if itf := mustFunc(p, r, "V5", domutilPkg+".InnerText"); itf != nil {
+		for _, f := range closuresOf(itf) {
+			if len(core.Calls(f, func(ci ssa.CallInstruction) bool { return core.IsCallTo(ci, "(*bytes.Buffer).WriteString") })) > 0 {
+				innerFinder = f
+			}
+		}
+		if innerFinder == nil {
+			r.Undecided("V5", "InnerText: the recursive text collector", "no closure of InnerText writes to the buffer")
+		}
+	}
+	if it := p.Inlined(innerFinder); it != nil {
 		paths, atoms, err := core.EnumerateDecisions(p, it, core.DecisionOpts{
 			Outcome: func(in ssa.Instruction, c *core.Canon) (string, bool) {
 				if _, ok := in.(*ssa.Return); ok {
@@ -404,7 +373,7 @@ func C04(p *core.Program, r *core.Report) {
 		}
 	}
 	// captions synthesised by the image extractor use InnerText as well
-	if cf := mustFunc(p, r, "V5", "(*mod/internal/extractor/embed.ImageExtractor).createFigCaption"); cf != nil {
+	if cf := mustInl(p, r, "V5", "(*mod/internal/extractor/embed.ImageExtractor).Extract"); cf != nil {
 		c := core.NewCanon(p)
 		v := ""
 		for _, call := range core.Calls(cf, func(ci ssa.CallInstruction) bool { return core.IsCallTo(ci, "github.com/go-shiori/dom.SetTextContent") }) {
@@ -415,6 +384,6 @@ func C04(p *core.Program, r *core.Report) {
 			inner = c.Of(call.Common().Args[1])
 		}
 		r.Add("V5", "synthesised figure captions are rendered with InnerText from a re-parsed fragment", p.Pos(cf.Pos()),
-			v == `strings.TrimSpace(domutil.InnerText(dom.CreateElement("div")))` && inner == "domutil.InnerText($1)", "caption = "+v+"; fragment = "+inner)
+			v == `strings.TrimSpace(domutil.InnerText(dom.CreateElement("div")))` && strings.HasPrefix(inner, "domutil.InnerText("), "caption = "+v+"; fragment = "+inner)
 	}
 }
